@@ -25,6 +25,16 @@ UNITS = {'none': (None, None, 1, 0), 'len': ('m', 'cm') + unit_conversion('m', '
 
 
 def harnesses(tier, seed):
+    jobs = _harnesses(tier, seed)
+    if tier == 'quick':
+        # fix the sign class of the symbolic scalers per job (alternating), so that each job explores one sign pattern
+        for k, j in enumerate(jobs):
+            if j['params'].get('scaling', 'scaler_adder') != 'none':
+                j['params']['sign'] = 'neg' if (k % 3 == 1 or j['fn'] == 'h_bounds_mixed' and k % 2) else 'pos'
+    return jobs
+
+
+def _harnesses(tier, seed):
     jobs = []
     q = tier == 'quick'
     for scaling in ('none', 'scaler_adder', 'ref_ref0', 'ref_only', 'scaler_only'):
@@ -85,6 +95,9 @@ class _Lin(om.ExplicitComponent):
         J['f', 'x'] = c.reshape(1, -1)
 
 
+SIGN = [None]      # 'pos' | 'neg' | None: sign class of every symbolic scaling factor in the current harness run
+
+
 def _scal(ctx, kind, n, tag):
     """kwargs and the map x -> (x + a) * s as lists (a, s)"""
     one = [ctx.const(1)] * n
@@ -92,7 +105,15 @@ def _scal(ctx, kind, n, tag):
     if kind == 'none':
         return {}, zero, one
     B = 100
-    nz = lambda v: ctx.assume((v >= ctx.const('1/100')) | (v <= ctx.const('-1/100')))
+    def nz(v):
+        # the sign of a scaler decides on which side the image of a bound lies (one path per sign pattern): the quick tier fixes
+        # the sign class per harness, the thorough tier leaves it open
+        if SIGN[0] == 'pos':
+            ctx.assume(v >= ctx.const('1/100'))
+        elif SIGN[0] == 'neg':
+            ctx.assume(v <= ctx.const('-1/100'))
+        else:
+            ctx.assume((v >= ctx.const('1/100')) | (v <= ctx.const('-1/100')))
     if kind == 'scaler_adder':
         s, a = ctx.reals('s' + tag, n, -B, B), ctx.reals('a' + tag, n, -B, B)
         for i in range(n):
@@ -114,7 +135,8 @@ def _scal(ctx, kind, n, tag):
     return dict(ref=r, ref0=r0), [-r0[i] for i in range(n)], [1 / (r[i] - r0[i]) for i in range(n)]
 
 
-def h_values(ctx, n, scaling, units):
+def h_values(ctx, n, scaling, units, sign=None):
+    SIGN[0] = sign
     _install(ctx)
     xp = ctx.np
     mu, du, f, o = UNITS[units]
@@ -154,10 +176,21 @@ def h_values(ctx, n, scaling, units):
     clower, cupper, _ = drv._autoscaler.get_bounds_scaling('constraint')
     from openmdao.core.constants import INF_BOUND
     for i in range(n):
-        ctx.eq(f'dv_lower[{i}]', lower['x'][i], (lo[i] + da[i]) * ds[i], tol)
-        ctx.eq(f'dv_upper_inf[{i}]', upper['x'][i], INF_BOUND)
-        ctx.eq(f'con_upper[{i}]', cupper['y'][i], (lo[i] + ca[i]) * cs[i], tol)
-        ctx.eq(f'con_lower_inf[{i}]', clower['y'][i], -INF_BOUND)
+        # the feasible interval [lo, +inf) (design var) / (-inf, lo] (constraint) is mapped by x -> (x + a) * s: for s > 0 the image
+        # of the bound stays on its side, for s < 0 the ordering is reversed and the image bounds the scaled quantity from the other side
+        img_d, img_c = (lo[i] + da[i]) * ds[i], (lo[i] + ca[i]) * cs[i]
+        if bool(ds[i] > 0):
+            ctx.eq(f'dv_lower[{i}]', lower['x'][i], img_d, tol)
+            ctx.eq(f'dv_upper_inf[{i}]', upper['x'][i], INF_BOUND)
+        else:
+            ctx.eq(f'dv_upper_neg_scaler[{i}]', upper['x'][i], img_d, tol)
+            ctx.eq(f'dv_lower_inf_neg_scaler[{i}]', lower['x'][i], -INF_BOUND)
+        if bool(cs[i] > 0):
+            ctx.eq(f'con_upper[{i}]', cupper['y'][i], img_c, tol)
+            ctx.eq(f'con_lower_inf[{i}]', clower['y'][i], -INF_BOUND)
+        else:
+            ctx.eq(f'con_lower_neg_scaler[{i}]', clower['y'][i], img_c, tol)
+            ctx.eq(f'con_upper_inf_neg_scaler[{i}]', cupper['y'][i], INF_BOUND)
     # unscale(scale(x)) == x : push the scaled vector back through the driver into the model
     z = ctx.reals('z', n, -100, 100)          # arbitrary point in optimizer space
     vec = drv._vectors['design_var']
@@ -174,7 +207,8 @@ def h_values(ctx, n, scaling, units):
     ctx.observe('back', back)
 
 
-def h_jac(ctx, scaling, mode, fmt, units):
+def h_jac(ctx, scaling, mode, fmt, units, sign=None):
+    SIGN[0] = sign
     _install(ctx)
     xp = ctx.np
     n = m = 2
@@ -213,7 +247,8 @@ def h_jac(ctx, scaling, mode, fmt, units):
     ctx.observe('Jf', Jf)
 
 
-def h_bounds_mixed(ctx, scaling, via):
+def h_bounds_mixed(ctx, scaling, via, sign=None):
+    SIGN[0] = sign
     """per-element bound arrays that mix finite entries with the +-INF_BOUND sentinel: finite entries are mapped like
     values, infinite entries stay the sentinel; declared with add_* or re-declared with set_*_options"""
     _install(ctx)
@@ -255,19 +290,27 @@ def h_bounds_mixed(ctx, scaling, via):
         ctx.eq(f'con_scaled[{i}]', cv[i], (y[i] + ca[i]) * cs[i])
     L, Uq, _ = drv._autoscaler.get_bounds_scaling('design_var')
     cL, cU, _ = drv._autoscaler.get_bounds_scaling('constraint')
-    ctx.eq('dv_lower[0]', L['x'][0], (lo0 + da[0]) * ds[0])
-    ctx.eq('dv_lower_inf[1]', L['x'][1], -INF_BOUND)
-    ctx.eq('dv_upper_inf[0]', Uq['x'][0], INF_BOUND)
-    ctx.eq('dv_upper[1]', Uq['x'][1], (up1 + da[1]) * ds[1])
-    ctx.eq('con_lower_inf[0]', cL['y'][0], -INF_BOUND)
-    ctx.eq('con_lower[1]', cL['y'][1], (clo1 + ca[1]) * cs[1])
-    ctx.eq('con_upper[0]', cU['y'][0], (cup0 + ca[0]) * cs[0])
-    ctx.eq('con_upper_inf[1]', cU['y'][1], INF_BOUND)
+    def side(nm, vecs, i, img, is_lower, s_):
+        # finite bound: its image bounds the scaled quantity from the same side for a positive scaler, from the other side for a
+        # negative one; the opposite side is unbounded (sentinel)
+        Lv, Uv = vecs
+        same = bool(s_ > 0)
+        if is_lower == same:
+            ctx.eq(f'{nm}[{i}]:finite_side', Lv[i], img)
+            ctx.eq(f'{nm}[{i}]:other_side_inf', Uv[i], INF_BOUND)
+        else:
+            ctx.eq(f'{nm}[{i}]:finite_side', Uv[i], img)
+            ctx.eq(f'{nm}[{i}]:other_side_inf', Lv[i], -INF_BOUND)
+    side('dv', (L['x'], Uq['x']), 0, (lo0 + da[0]) * ds[0], True, ds[0])
+    side('dv', (L['x'], Uq['x']), 1, (up1 + da[1]) * ds[1], False, ds[1])
+    side('con', (cL['y'], cU['y']), 1, (clo1 + ca[1]) * cs[1], True, cs[1])
+    side('con', (cL['y'], cU['y']), 0, (cup0 + ca[0]) * cs[0], False, cs[0])
     ctx.observe('dv', dv)
     ctx.observe('L', L['x'])
 
 
-def h_mult(ctx, via='add'):
+def h_mult(ctx, via='add', sign=None):
+    SIGN[0] = sign
     """apply_mult_unscaling: multipliers in model units are invariant under the scaling.  KKT in model space
     for min f st y_i active, x_j on a bound:  df/dx_j + sum_i lam_i dy_i/dx_j + mu_j = 0.  Take the scaled
     multipliers that satisfy the *scaled* stationarity, unscale them with the real code, and require the model-space
